@@ -303,20 +303,47 @@ def k_inputs():
     return walk(os.path.join(KANI_DIR, 'src'), ('.rs',)) + [os.path.join(KANI_DIR, 'Cargo.toml')]
 
 
+def k_module_hash(mod):
+    src = os.path.join(KANI_DIR, 'src')
+    seen, todo = set(), [mod, 'common']
+    while todo:
+        m = todo.pop()
+        if m in seen: continue
+        seen.add(m)
+        t = open(os.path.join(src, m + '.rs')).read()
+        for x in set(re.findall(r'\b(h_[a-z0-9_]+|common)\b', t)):
+            if x not in seen and os.path.exists(os.path.join(src, x + '.rs')): todo.append(x)
+    lib = '\n'.join(l for l in open(os.path.join(src, 'lib.rs')).read().split('\n') if not re.match(r'\s*(pub )?mod \w+;|\s*#\[cfg\(kani\)\]\s*$', l))
+    return sha_files([os.path.join(src, m + '.rs') for m in seen] + [os.path.join(KANI_DIR, 'Cargo.toml')]) + hashlib.sha256(lib.encode()).hexdigest()
+
+
 def run_kani(harnesses, jobs=None, timeout_s=None):
     """runs the listed harnesses (each cached separately by content hash); returns {harness: result}"""
     results = {}
     if not harnesses: return results
-    base = hashlib.sha256((src_hash() + sha_files(k_inputs())).encode()).hexdigest()[:24]
+    sh = src_hash()
+    bases = {}
+
+    def base_of(h):
+        # cache key of a harness: the repository sources + the harness module and every module of the harness crate it names
+        # (transitively) + common.rs + lib.rs without its `mod` lines + Cargo.toml; its registration (args, timeout, cap) is part of the key too
+        m = h['name'].split('::')[0]
+        if m not in bases:
+            bases[m] = hashlib.sha256((sh + k_module_hash(m)).encode()).hexdigest()[:24]
+        return bases[m]
+
+    def cpath(h):
+        reg = hashlib.sha256(json.dumps([h.get('args'), h.get('timeout'), h.get('heavy')], sort_keys=True).encode()).hexdigest()[:6]
+        return os.path.join(CACHE, 'k', base_of(h), h['name'].replace('::', '__') + '.' + reg + '.json')
     todo = []
     for h in harnesses:
-        cp = os.path.join(CACHE, 'k', base, h['name'].replace('::', '__') + '.json')
+        cp = cpath(h)
         if os.path.exists(cp) and not os.environ.get('VERIF_NOCACHE'):
             r = json.load(open(cp)); r['from_cache'] = True; results[h['name']] = r
         else:
             todo.append(h)
     if not todo: return results
-    os.makedirs(os.path.join(CACHE, 'k', base), exist_ok=True)
+    for h in todo: os.makedirs(os.path.dirname(cpath(h)), exist_ok=True)
     lock = os.path.join(KANI_DIR, 'Cargo.lock')
     if not os.path.exists(lock) or open(lock).read() != open(os.path.join(REPO, 'Cargo.lock')).read():
         shutil.copy(os.path.join(REPO, 'Cargo.lock'), lock)
@@ -385,9 +412,9 @@ def run_kani(harnesses, jobs=None, timeout_s=None):
                 results[h['name']] = r
                 # cache decided results only (a FAILED without a failed check is a tool failure and is tried again next time)
                 if r['status'] == 'success' or (r['status'] == 'failed' and r['failed_checks']):
-                    json.dump(r, open(os.path.join(CACHE, 'k', base, h['name'].replace('::', '__') + '.json'), 'w'), indent=1)
+                    json.dump(r, open(cpath(h), 'w'), indent=1)
     ents = sorted(glob.glob(os.path.join(CACHE, 'k', '*')), key=os.path.getmtime)
-    for e in ents[:-60]: shutil.rmtree(e, ignore_errors=True)
+    for e in ents[:-600]: shutil.rmtree(e, ignore_errors=True)
     return results
 
 
